@@ -596,8 +596,9 @@ fn clock_at(sm: StartMode, k: usize) -> Option<ClockNow> {
 	match sm {
 		StartMode::ClockAt(at) => Some(ClockNow {
 			ticking: true,
-			ticks: if k >= at { 2 } else { 1 },
-			fraction: if k >= at { 0.5 } else { 0.75 },
+			// (short of the time (2, 0.5) in two ways: the same tick with a smaller fraction, an earlier tick with a larger one)
+			ticks: if k >= at || k % 2 == 0 { 2 } else { 1 },
+			fraction: if k >= at { 0.5 } else if k % 2 == 0 { 0.25 } else { 0.75 },
 		}),
 		StartMode::ClockPausedUntil2 => Some(ClockNow {
 			ticking: k >= 2,
